@@ -30,8 +30,28 @@ Same(x, e) == x.int /\ NormS([neg |-> x.neg, m |-> BOfDigits(x.ds)]) = e
 FirstEqual(o) == LET X == NormS(Signed(o.a))
                      hits == {i \in 1..Len(o.items) : NormS(Signed(o.items[i])) = X}
                  IN IF hits = {} THEN 0 ELSE CHOOSE i \in hits : \A j \in hits : i <= j
+(* ROUND(x, d) for x = xn/xd (xd a small power of two) with x*10^d beyond TLC's integers, the answer given exactly as a   *)
+(* float rn/2^rk: it lies within 0.51 unit of x (half a unit, and the float's own representation error, which is below a  *)
+(* hundredth of a unit for x*10^d < 10^13):   200 * 10^d * |rn*xd - xn*2^rk|  <=  102 * 2^rk * xd                        *)
+RECURSIVE BShl(_, _)
+BShl(a, k) == IF k = 0 THEN a ELSE BShl(BMulAdd(a, 2, 0), k - 1)
+RECURSIVE BTimes10(_, _)
+BTimes10(a, d) == IF d = 0 THEN a ELSE BTimes10(BMulAdd(a, 10, 0), d - 1)
+RoundNear(o) ==
+  LET RN == BOfDigits(o.r.nd)
+      RD == BOfDigits(o.r.dd)
+      XN == BOfDigits(o.xn)
+      A == BNorm(BMulAdd(RN, o.xd, 0))
+      B == BNorm(BShl(XN, o.rk))
+      D == IF BLe(B, A) THEN BSub(A, B) ELSE BSub(B, A)
+  IN /\ o.isnum
+     /\ BNorm(BShl(<<1>>, o.rk)) = RD              \* the recorded exponent is the denominator's
+     /\ o.d >= 0 /\ o.d <= 9 /\ o.xd >= 1 /\ o.xd <= 1024
+     /\ (o.r.neg = o.xneg \/ RN = <<>>)
+     /\ BLe(BNorm(BMulAdd(BTimes10(D, o.d), 200, 0)), BNorm(BMulAdd(BMulAdd(RD, o.xd, 0), 102, 0)))
 Failing(o) ==
-  IF o.op = "match" THEN (IF o.pos = FirstEqual(o) THEN <<>> ELSE <<"position_of_first_equal_item">>)
+  IF o.op = "roundnear" THEN (IF RoundNear(o) THEN <<>> ELSE <<"not_within_half_a_unit">>)
+  ELSE IF o.op = "match" THEN (IF o.pos = FirstEqual(o) THEN <<>> ELSE <<"position_of_first_equal_item">>)
   ELSE IF o.op = "&" THEN (IF o.txt = JoinExpected(o) /\ o.txt2 = o.suffix \o (IF o.a.neg THEN <<45>> ELSE <<>>) \o o.a.ds THEN <<>> ELSE <<"digits_joined">>)
   ELSE IF IsCmp(o) THEN (IF o.truth = "TRUE" /\ CmpExpected(o) THEN <<>> ELSE IF o.truth = "FALSE" /\ ~CmpExpected(o) THEN <<>>
                     ELSE <<"numeric_order">>)
